@@ -39,7 +39,7 @@ func TestC08(t *testing.T) {
 			"Teardown(+-WithOwner), Destroy(+-WithOwner), AddFinalizer, RemoveFinalizer} on random targets; each result is compared with a reference policy written from the statement and the " +
 			"whole-store snapshot before/after. distinct = (flavour, declaration, op, target, pre-state class, verdict) cell; non-trivial = every cell (each cell is a distinct policy decision)")
 		c.Assume("WithCreateNoOwner / WithModifyNoOwner / WithOwner are explicit opt-outs and are modelled as such; Teardown of an already tearing-down resource is a read-only success")
-		c.Require("ops_denied_by_policy", "ops_allowed_success", "ops_allowed_failed_by_store", "owner_conflicts_checked", "q_flavour_ops", "cached_kind_ops", "explicit_owner_ops")
+		c.Require("ops_denied_by_policy", "ops_allowed_success", "ops_allowed_failed_by_store", "owner_conflicts_checked", "q_flavour_ops", "cached_kind_ops", "explicit_owner_ops", "ops_after_input_update")
 
 		n := c.N(1500, 100000)
 
@@ -151,12 +151,43 @@ func scenario(c *vk.C, rng *rand.Rand, k int) {
 	nOps := 60
 	orng := rand.New(rand.NewPCG(rng.Uint64(), 99))
 
+	// the plain Controller flavour re-declares its inputs half-way through (same keys with other kinds, or a changed key set)
+	var (
+		inputs2   []controller.Input
+		recs2     []opRec
+		updateErr error
+	)
+
 	script := func(ctx context.Context, r controller.QRuntime) {
 		once.Do(func() {
 			defer close(done)
 
 			for i := 0; i < nOps; i++ {
 				recs = append(recs, doOp(ctx, w, r, orng))
+			}
+
+			full, ok := r.(controller.Runtime)
+			if !ok || len(inputs) == 0 {
+				return
+			}
+
+			inputs2 = slices.Clone(inputs)
+			kinds := []controller.InputKind{controller.InputWeak, controller.InputStrong, controller.InputDestroyReady}
+
+			for i := range inputs2 {
+				inputs2[i].Kind = kinds[orng.IntN(3)]
+			}
+
+			if orng.IntN(2) == 0 && len(inputs2) > 1 {
+				inputs2 = inputs2[:len(inputs2)-1] // also drop one
+			}
+
+			if updateErr = full.UpdateInputs(slices.Clone(inputs2)); updateErr != nil {
+				return
+			}
+
+			for i := 0; i < nOps/2; i++ {
+				recs2 = append(recs2, doOp(ctx, w, r, orng))
 			}
 		})
 	}
@@ -275,6 +306,22 @@ func scenario(c *vk.C, rng *rand.Rand, k int) {
 
 		if detail != "" {
 			c.Violation(verdict, map[string]any{"scenario": k, "q_flavour": q, "op_index": i, "op": rec, "why": detail, "inputs": declString(inputs, nil), "outputs": declString(nil, outputs)})
+		}
+	}
+
+	if updateErr != nil {
+		c.Violation("valid-input-update-rejected", map[string]any{"err": updateErr.Error(), "from": declString(inputs, nil), "to": declString(inputs2, nil)})
+	}
+
+	for i, rec := range recs2 {
+		verdict, detail := judge(rec, inputs2, outputs)
+
+		c.Case(vk.Hash("after-update", declString(inputs2, outputs), rec.Op, rec.Opt, rec.Target, rec.Pre != nil, verdict), true)
+		c.Count("ops_after_input_update", 1)
+
+		if detail != "" {
+			c.Violation(verdict, map[string]any{"scenario": k, "after_update_inputs": true, "op_index": i, "op": rec, "why": detail,
+				"inputs_before": declString(inputs, nil), "inputs_now": declString(inputs2, nil), "outputs": declString(nil, outputs)})
 		}
 	}
 
